@@ -9,6 +9,7 @@ use crustabri_verif::spec::Sem;
 use crustabri_verif::statics::*;
 use crustabri_verif::util::graph_from_code;
 use std::collections::BTreeMap;
+mod registry;
 use std::rc::Rc;
 
 fn encs(sem: Sem, kind: Kind) -> Vec<Enc> {
@@ -94,7 +95,7 @@ fn run_dynamic(events: usize, allow_bad: bool, labels: u32, max_runs: usize) {
     let mut summary: BTreeMap<String, (usize, Vec<String>)> = BTreeMap::new();
     for which in [Dyn::Complete, Dyn::Stable, Dyn::Preferred, Dyn::DummyCoPr, Dyn::DummySt, Dyn::CompleteAttacks, Dyn::StableAttacks] {
         let attacks = matches!(which, Dyn::CompleteAttacks | Dyn::StableAttacks);
-        let plan = Plan { events, allow_bad, labels: if attacks { labels.min(2) } else { labels }, arg_factor: 1.0 };
+        let plan = Plan { events, allow_bad, labels: if attacks { labels.min(2) } else { labels }, arg_factor: 1.0, fixed: None };
         let f = || {
             let sh = Rc::new(Shared::default());
             sh.allow_none.set(true);
@@ -122,8 +123,80 @@ fn run_dynamic(events: usize, allow_bad: bool, labels: u32, max_runs: usize) {
     }
 }
 
+/// `explore find <harness> [needle]`: depth-first enumeration of every nondeterministic behaviour of the named
+/// harness body on the natively compiled crustabri; prints the first script whose failure message contains `needle`.
+/// `explore replay <harness> <v1,v2,...>`: re-runs one script (explorer indices).
+fn find(name: &str, needle: &str, max_runs: usize) -> i32 {
+    let f = match registry::lookup(name) {
+        Some(f) => f,
+        None => {
+            println!("UNKNOWN-HARNESS {}", name);
+            return 3;
+        }
+    };
+    let (runs, disc, failures) = native::explore(move || f(), max_runs);
+    for (script, msg) in failures.iter() {
+        if msg.contains(needle) {
+            let sc: Vec<String> = script.iter().map(|v| v.to_string()).collect();
+            println!("REPRODUCED runs={} script={} message={}", runs, sc.join(","), msg);
+            return 1;
+        }
+    }
+    println!("NOT-REPRODUCED runs={} discarded={} other_failures={} truncated={}", runs, disc, failures.len(), runs >= max_runs);
+    for (script, msg) in failures.iter().take(3) {
+        println!("  other: {:?} {}", script, msg);
+    }
+    0
+}
+
+fn replay_script(name: &str, script: &str) -> i32 {
+    let f = match registry::lookup(name) {
+        Some(f) => f,
+        None => {
+            println!("UNKNOWN-HARNESS {}", name);
+            return 3;
+        }
+    };
+    let values: Vec<u64> = script.split(',').filter(|s| !s.is_empty()).map(|s| s.parse().unwrap()).collect();
+    native::SCRIPT.with(|s| {
+        *s.borrow_mut() = native::Script { values, domains: vec![], pos: 0, raw: false };
+    });
+    let hook = std::panic::take_hook();
+    std::panic::set_hook(Box::new(|_| {}));
+    let r = std::panic::catch_unwind(move || f());
+    std::panic::set_hook(hook);
+    match r {
+        Ok(()) => {
+            println!("NOT-REPRODUCED the script runs without failure");
+            0
+        }
+        Err(e) => {
+            if e.downcast_ref::<native::Discard>().is_some() {
+                println!("NOT-REPRODUCED the script violates an assumption of the harness");
+                return 0;
+            }
+            let msg = if let Some(s) = e.downcast_ref::<String>() {
+                s.clone()
+            } else if let Some(s) = e.downcast_ref::<&str>() {
+                s.to_string()
+            } else {
+                "panic".to_string()
+            };
+            println!("REPRODUCED message={}", msg);
+            1
+        }
+    }
+}
+
 fn main() {
     let args: Vec<String> = std::env::args().collect();
+    if args.get(1).map(|s| s == "find").unwrap_or(false) {
+        let max_runs: usize = args.get(4).map(|s| s.parse().unwrap()).unwrap_or(20_000_000);
+        std::process::exit(find(&args[2], args.get(3).map(|s| s.as_str()).unwrap_or(""), max_runs));
+    }
+    if args.get(1).map(|s| s == "replay").unwrap_or(false) {
+        std::process::exit(replay_script(&args[2], args.get(3).map(|s| s.as_str()).unwrap_or("")));
+    }
     if args.get(1).map(|s| s == "dynamic").unwrap_or(false) {
         let events: usize = args.get(2).map(|s| s.parse().unwrap()).unwrap_or(4);
         let allow_bad = args.get(3).map(|s| s == "bad").unwrap_or(false);
